@@ -59,6 +59,7 @@ def run(ctx):
     ctor_total_rule(ctx)
     subtraction_audit(ctx)
     domain_audit(ctx)
+    refusal_audit(ctx)
     panic_audit(ctx, "C16.P")
     # records that end in an ambiguous base / are all ambiguous: the k-mer iterator's position discipline
     from . import c01, c07
@@ -341,6 +342,55 @@ PARTIAL_FNS = {
 AUDITED_PARTIAL_CALLS = {}      # "fn(args)" -> reason; empty on the pinned tree (no such call exists)
 
 
+AUDITED_REFUSALS = {
+    # (function, error) -- the property lets whole-sequence CGR refuse records with non-nucleotide bytes
+    ("composition::cgr::CgrComputer::vectorise_one", "Err(to_string('Bad nucleotide, unable to proceed'))"),
+    ("composition::oligocgr::OligoCgrComputer::vectorise_one", "Err(to_string('Bad nucleotide, unable to proceed'))"),
+    ("pybindings::cgr::CgrComputer::vectorise_one", "Err(new_err('Bad nucleotide, unable to proceed'))"),
+}
+
+
+def refusal_audit(ctx):
+    """U: an `Err(..)` built by the workspace's own code is a refusal.  Re-wrapping the error of a failed std call
+    (`match r { Err(_) => return Err(msg), .. }`) refuses nothing new; any other one must be on the audited list --
+    a fresh refusal ("no k-mers found", "empty table") turns a degenerate but well-formed input into an error, and
+    the CLI unwraps `build_table()` / prints the error and produces no rows"""
+    n_seen = 0
+    for fv in ctx.all_views(lambda f: not f["npath"].startswith(("<kmertools::", "kmertools::", "pykmertools::"))):
+        if fv.fn.get("mac"):      # (the CLI's own refusals are judged by C15.Z against the documented ranges)
+            continue
+        for n in fv.nodes:
+            if n.get("k") != "call" or not cname(n).endswith("::Err") or n.get("mac"):
+                continue
+            n_seen += 1
+            rewrap = False
+            for g, pol in fv.guards(n):
+                if g.get("k") == "letexpr":
+                    pn = (g["pat"].get("path") or "").split("::")[-1]
+                    if (pn == "Err" and pol) or (pn == "Ok" and not pol):
+                        rewrap = True
+            for a in fv.ancestors(n):
+                if a.get("k") == "match":
+                    for arm in a["arms"]:
+                        if (arm["pat"].get("path") or "").endswith("::Err") and any(x is n for x in walk(arm["body"])):
+                            rewrap = True
+            key = (fv.path, show(fv.term(n)))
+            ctx.check("C16.U", "%s:refusal:%s" % (fv.path, key[1][:60]), rewrap or key in AUDITED_REFUSALS,
+                      "audited refusal / re-wrapped std error",
+                      "%s builds `%s`: a refusal that is not on the audited list — a degenerate but well-formed input "
+                      "(no records, no k-mers, empty table) that takes it ends in an error (the CLI unwraps or prints it) "
+                      "instead of the empty / all-zero output" % (fv.path, key[1]), line_of(n))
+    if n_seen < 3:
+        ctx.fail("C16.U", "refusals:floor", "fewer explicit Err(..) constructions (%d) than the 3 audited ones" % n_seen)
+
+
+AUDITED_DIVISORS = {
+    # n_parts = max(threads (debug: 1), <estimate>) in CountComputer::init; threads >= 1 by the constructor default and the
+    # CLI wiring (C15.F: set_threads only under threads > 0); C07.K table_len / route pin the field
+    ("counter::CountComputer::count_chunk", "self.n_parts"),
+}
+
+
 def domain_audit(ctx):
     """D: a call to a std function that panics on a degenerate argument (`clamp(1, n)` with n = 0, `chunks(0)`,
     `windows(0)`, `step_by(0)`, `split_at(len + 1)` ..) must have that argument fixed by literals; a runtime size
@@ -378,6 +428,28 @@ def domain_audit(ctx):
                  "`%s` in %s panics unless %s, and its arguments are runtime values: on degenerate input (no records, empty "
                  "record, record shorter than k, zero counts) the call aborts the subcommand instead of producing the "
                  "empty / all-zero output" % (key, fp, need), line_of(n))
+    # integer `/` and `%` panic on a zero divisor: the divisor is a non-zero literal or an audited, established-positive value
+    INTS = ("u8", "u16", "u32", "u64", "u128", "usize", "i8", "i16", "i32", "i64", "i128", "isize")
+    n_div = 0
+    for fv in ctx.all_views(lambda f: not f["npath"].startswith(("<kmertools::", "pykmertools::", "<pybindings::"))):
+        if fv.fn.get("mac"):
+            continue
+        for n in fv.nodes:
+            if n.get("k") not in ("bin", "assignop") or n.get("op", "").rstrip("=") not in ("/", "%") or n.get("mac"):
+                continue
+            ty = n.get("ty") if n.get("k") == "bin" else (n["l"].get("ty") or "")
+            if ty not in INTS:
+                continue
+            n_div += 1
+            d = fv.term(n["r"])
+            okd = (d[0] == "lit" and isinstance(d[1], int) and d[1] != 0) or d[0] == "bin" and d[1] == "max" and any(
+                x[0] == "lit" and isinstance(x[1], int) and x[1] >= 1 for x in d[2:4]) \
+                or (fv.path, show(d)) in AUDITED_DIVISORS
+            ctx.check("C16.D", "%s:int_division:%s" % (fv.path, show(d)), okd, "divisor `%s` is never 0" % show(d),
+                      "integer `%s %s` in %s: the divisor is a runtime value that is 0 on degenerate input (no records, "
+                      "no bases, ..) and the division panics" % (n["op"], show(d), fv.path), line_of(n))
+    if n_div < 3:
+        ctx.fail("C16.D", "int_division:floor", "fewer integer divisions found (%d) than the 3 confirmed on the pinned tree" % n_div)
     ctx.check("C16.D", "partial_calls:audited", not bad,
               "%d call(s) to degenerate-argument-partial std functions, all with literal in-domain arguments" % n_seen,
               "%d call(s) whose in-domain condition depends on the input" % len(bad), None, nontrivial=False)
